@@ -435,6 +435,11 @@ PLANS = {
 }
 
 
+def all_plans():
+    """every battery (thorough tier runs them all, also when no obligation failed)"""
+    return [dict(p) for p in PLANS.values()]
+
+
 def build(unit, obl, vals):
     for key, plan in PLANS.items():
         if "/" + key + "." in unit or "/" + key + ")" in unit or key + "." in unit:
